@@ -115,6 +115,17 @@ var oracleC18 = oracle{post: func(c *checker) {
 							fmt.Sprintf("valid proof for tx %d of %s (%s) answered (%d,%t), want (%d,%t)", i, n.Label, mode, height, best, n.Height, inBest))
 						return nil
 					}
+					if withHeader {
+						both := mk()
+						h := u.Hash
+						both.BlockHash = &h
+						bh, bbest, berr := w.Repo.VerifyMerkleProof(w.Ctx, both)
+						c.n++
+						if (berr == nil) != (err == nil) || (berr == nil && (bh != height || bbest != best)) {
+							c.fail("valid-proof-both-fields", memClass(retained, inBest), fmt.Sprintf("valid proof for tx %d of %s carrying header and block hash answered (%d,%t,%v), header-only (%d,%t,%v)", i, n.Label, bh, bbest, berr, height, best, err))
+							return nil
+						}
+					}
 					// corruptions: each must be refused
 					type corruption struct {
 						name string
@@ -165,6 +176,35 @@ var oracleC18 = oracle{post: func(c *checker) {
 								return false
 							}
 							q.BlockHeader.MerkleRoot[5] ^= 1
+							return true
+						}},
+						// proofs that carry both a header and a block hash: the header is what the path is
+						// checked against, so it is the header that must be known
+						{"unknown-header-with-known-hash", func(q *merkle_proof.MerkleProof) bool {
+							if q.BlockHeader == nil {
+								return false
+							}
+							h := u.Hash
+							q.BlockHash = &h
+							q.BlockHeader.Nonce += 999
+							return true
+						}},
+						{"altered-merkle-root-with-known-hash", func(q *merkle_proof.MerkleProof) bool {
+							if q.BlockHeader == nil {
+								return false
+							}
+							h := u.Hash
+							q.BlockHash = &h
+							q.BlockHeader.MerkleRoot[9] ^= 4
+							return true
+						}},
+						{"txid-bit-with-both", func(q *merkle_proof.MerkleProof) bool {
+							if q.BlockHeader == nil {
+								return false
+							}
+							h := u.Hash
+							q.BlockHash = &h
+							q.TxID[3] ^= 1
 							return true
 						}},
 						{"no-target", func(q *merkle_proof.MerkleProof) bool {
